@@ -46,6 +46,25 @@ def generate(tier, seed):
                 if k < 2 + n // 2:
                     cases.append(("scales", {"model": d, "per": round(float(rng.uniform(0.05, 0.95)), 3)}))
     with_opt = [m for m in common.MODELS if common.opt_bounds(m, 2)]
+    # round values of the optional arguments and values a hair beside them (tolerant comparisons in special-function code)
+    for name in with_opt:
+        dim = int(rng.integers(1, 4))
+        if dim > common.max_valid_dim(name):
+            dim = common.max_valid_dim(name)
+        for arg, (lo, hi, typ) in common.opt_bounds(name, dim).items():
+            vals = [v for v in common.SPECIAL_VALUES.get(arg, []) if (v > lo or (v == lo and typ[0] == "c")) and (v < hi or (v == hi and typ[1] == "c"))]
+            for v in (vals if tier == "thorough" else [vals[i] for i in rng.permutation(len(vals))[:3]]):
+                for fac in (1.0, 1.0 + 2e-6, 1.0 - 2e-6):
+                    vv = v * fac
+                    if not (lo < vv < hi):
+                        continue
+                    d = common.draw_model(rng, name, dim, opt_mode="default", aniso=False, nugget=False)
+                    d["opt"] = {arg: vv}
+                    if name == "TPLStable" and arg == "alpha":
+                        d["opt"]["hurst"] = min(0.5, 0.45 * vv)
+                    if name in ("Stable", "TPLStable") and arg == "alpha" and vv < 0.5:
+                        continue
+                    cases.append(("closed_form", {"model": d, "lseed": int(rng.integers(1 << 30))}))
     for rep in range(2 * n):
         for name in with_opt:
             dim = int(rng.integers(1, 4))
@@ -116,6 +135,15 @@ def check_closed_form(ctx, c):
     # (1) documented closed form
     ctx.event("closed_form_values", lags.size)
     tol = 1e-10 + 1e-9 * np.abs(rho)
+    # exponential-integral models next to an integer order s: E_s is evaluated through Gamma(1-s, x), whose recursion divides by
+    # (s - n); the attainable accuracy there is eps / |s - n| (orders within 1e-8 of an integer use E_n itself)
+    o = d.get("opt", {})
+    order = {"Integral": lambda: 1 + o.get("nu", 1.0) / 2, "TPLGaussian": lambda: 1 + o.get("hurst", 0.5),
+             "TPLExponential": lambda: 1 + 2 * o.get("hurst", 0.5), "TPLStable": lambda: 1 + 2 * o.get("hurst", 0.5) / o.get("alpha", 1.5)}.get(d["name"])
+    if order is not None:
+        dist = abs(order() - round(order()))
+        if 0 < dist < 1e-4:
+            tol = tol + 50 * 2.3e-16 / max(dist, 1e-8) + (4e-8 if dist <= 1e-8 else 0.0)
     err = np.abs(got["correlation"] - rho)
     ctx.resolve("closed_form_abs", float(np.nanmax(err)))
     bad = ~(err <= tol)
